@@ -27,6 +27,7 @@ def run(ctx):
         real = pool.map("engines.c12:real_params_route", list(range(len(REAL_CASES))))
         tasks = [d for d in descs if d["nodes"][d["root"]].get("cls") in ("job", "jobout", "job_old", "jobout_old")]
         routs = pool.map("engines.gwork:eval_c12_real", [{"G": d} for d in tasks])
+        dpath = pool.map("engines.gwork:eval_datapath", [{}])[0]
     done, sigs = 0, set()
     for it, o in zip(items, outs):
         done += o["done"]
@@ -49,13 +50,18 @@ def run(ctx):
         done += 1
         for p in o:
             res.violation("real-params:" + p["kind"], f"real job process route, case {REAL_CASES[i]['name']}: {p}", {"case": i, "problem": p})
+    # configurations carrying data files
+    done += dpath["cases"]
+    for p in dpath["problems"]:
+        res.violation(f"datapath:{p['kind']}:{p['route']}:{p['history']}", f"data files, {p['shape']}: {p}", {"datapath": p})
     res.coverage = {
         "evaluations": done,
         "distinct_nontrivial": len(sigs),
+        "datapath_cases": dpath["cases"],
         "rule": "every description within (N,k) (all parameter kinds, sharing, cycles, task outputs, meta True/False/None, pre/init tasks) x routes "
                 "{objects list of params.json -> fromParameters config mode (stored identifiers discarded / kept) / instance mode, state_dict -> from_state_dict, save -> load}; reloaded graph "
                 "extracted from the real objects and compared (canonical relabelling) with the description, full and raw identifiers of every reloaded node and of a fresh configuration embedding the reloaded root compared with the originals; plus real "
-                "GENERATE_ONLY params.json files read back by run() with tags; distinct_nontrivial = distinct canonical signatures",
+                "GENERATE_ONLY params.json files read back by run() with tags; plus configurations with data files (DataPath) x {save/load, serialize/deserialize} x {one file, two files under the same parameter name, one file used twice} x {fresh directory, saved again, saved again after the source was replaced, another object saved into the same directory}: loaded values and data equal the configured ones and the source files are untouched; distinct_nontrivial = distinct canonical signatures",
         "samples": clip_samples([descs[7], descs[len(descs) // 2]]),
         "exhaustive": not capped, "descriptions": len(descs), "routes": ROUTES + ["real params.json -> run()"], "real_params_cases": len(REAL_CASES), "real_run_descriptions": nreal,
     }
@@ -69,7 +75,7 @@ def run(ctx):
     res.coverage["resubmission_executions"] = wres.coverage["executions"]
     res.coverage["rule"] += ("; plus (Engine W, real scheduler in the virtual world, all schedules with <= 1 deviation) a job submitted again with another Meta "
                              "value after a failure, in the same / a later / another experiment: every launched process reads the values of the submission that launched it")
-    res.assumptions = ["data paths (DataPath / SerializedPath copying) are not part of the universe"]
+    res.assumptions = ["data paths (DataPath) are covered by the hand-made family only (universe.g.Dat / DatBox), not by the general description space"]
     return res
 
 
@@ -167,6 +173,11 @@ def real_params_route(i):
 
 
 def replay(ctx, payload):
+    if "datapath" in payload:
+        from . import gwork
+        gwork.init()
+        print(json.dumps(gwork.eval_datapath({}), indent=1)[:4000])
+        return 0
     if "scen" in payload:
         from .wcheck import replay as wreplay
         return wreplay(ctx, dict(payload, props=["C12"]))
